@@ -296,8 +296,8 @@ class CallMixin:
                         out += self.apply_contract(con, args, kw, s2, exc, site=src)
                 return out
             for s, pos, kw in self.eval_args(e, st, exc):
-                if isinstance(e.func, ast.Name) and e.func.id in s.env and list(con.types)[:1] == ["cls"]:
-                    pos = [s.env[e.func.id]] + pos
+                if isinstance(e.func, ast.Name) and list(con.types)[:1] == ["cls"]:
+                    pos = [s.env[e.func.id] if e.func.id in s.env else self.cls_sv(e.func.id)] + pos
                 out += self.apply_contract(con, pos, kw, s, exc, site=src, arg_asts=e.args)
             return out
         mode = directive.split(":")
@@ -816,6 +816,8 @@ class CallMixin:
         else:
             res = self.fresh_sv(rty, "ret_" + con.id.split(":")[1].replace(".", "_"), st)
         for name, expr in con.ensures.items():
+            if name in con.not_assumed:
+                continue
             st.assume(self.clause_term(expr, penv, st, old=old, result=res))
         if con.trusted:
             self.assumptions_used.add("trusted contract: %s" % con.id)
